@@ -312,7 +312,11 @@ func TestC02(t *testing.T) {
 					}
 					return "step"
 				}
-				if err := c02Run(&c, syn, next, &st); err != nil {
+				err := func() error {
+					defer r.Deadman("machine", &c)()
+					return c02Run(&c, syn, next, &st)
+				}()
+				if err != nil {
 					r.Fail(t, "machine", c, err)
 				}
 				h := rig.Hash64(fmt.Sprint(c.Init), c.MemSeed, fmt.Sprint(c.Actions))
